@@ -546,8 +546,24 @@ def _names_used_by_rules():
         root = os.path.join(os.path.dirname(os.path.dirname(os.path.abspath(__file__))), "rules")
         for f in glob.glob(os.path.join(root, "*.py")):
             with open(f) as fh:
-                for m in re.finditer(r'"(<?xs(?:bin)?::[A-Za-z0-9_:<> ]+)"', fh.read()):
-                    names.add(m.group(1).rstrip(":"))
+                text = fh.read()
+            for m in re.finditer(r'"(<?xs(?:bin)?::[A-Za-z0-9_:<> ]+)"', text):
+                names.add(m.group(1).rstrip(":"))
+            # names spelled as MODULE_CONSTANT + "::item" (MOD + "::register_command", HANDLER + "::serve|body", API + "handle_head_get")
+            consts = {}
+            for m in re.finditer(r'^([A-Z][A-Z0-9_]*) = "((?:<?xs)[^"]*)"', text, re.M):
+                consts[m.group(1)] = m.group(2)
+            for _ in range(2):
+                for m in re.finditer(r'^([A-Z][A-Z0-9_]*) = ([A-Z][A-Z0-9_]*) \+ "([^"]*)"', text, re.M):
+                    if m.group(2) in consts:
+                        consts[m.group(1)] = consts[m.group(2)] + m.group(3)
+            for k, v in consts.items():
+                names.add(v.rstrip(":"))
+            for m in re.finditer(r'\b([A-Z][A-Z0-9_]*) \+ "([^"]+)"', text):
+                if m.group(1) in consts:
+                    full = (consts[m.group(1)] + m.group(2)).split("|")[0].split("%")[0]
+                    if re.fullmatch(r"<?xs[A-Za-z0-9_:<> ]+", full):
+                        names.add(full.rstrip(":"))
         _RULE_NAMES = names
     return _RULE_NAMES
 
@@ -570,7 +586,7 @@ def _module(def_path):
 MAX_SITES = 6
 # helper families the rules treat as units (responders build the HTTP answer: their own `?` must not appear inside api::handle)
 ROLE_PREFIXES = ("xs::api::response_", "xs::api::handle_")
-MAX_HELPER_BLOCKS = 60
+MAX_HELPER_BLOCKS = 160
 
 
 def _is_key_constructor_site(b, c):
